@@ -44,10 +44,15 @@ def _load(ctx, api, path, fmt=None, many=False):
         warnings.simplefilter("always")
         try:
             if many:
-                return list(api.load_many(path, fmt=fmt)), None
-            return api.load_one(path, fmt=fmt), None
+                res = list(api.load_many(path, fmt=fmt))
+            else:
+                res = api.load_one(path, fmt=fmt)
         except LoadError as e:
+            ctx.scratch.setdefault("loaded", []).append(("LoadError", str(e), []))
             return None, e
+    # (kept for histories, C16: what a call returned is compared with what the same call returns later)
+    ctx.scratch.setdefault("loaded", []).append(("ok", "", res if many else [res]))
+    return res, None
 
 
 def _arr(ctx, rows):
@@ -128,7 +133,14 @@ def h_sdf(ctx, natom=3, nbond=2, policy="touch"):
 
 
 # ------------------------------------------------------------------------------------------ PDB
-def h_pdb(ctx, natom=3, big=False, policy="touch"):
+def _pdb_guess(name):
+    """The documented fall-back when columns 77-78 are blank: the atom name, its first two letters, its first letter."""
+    from specs.layouts import NUM2SYM
+    sym2num = {v: k for k, v in NUM2SYM.items()}
+    return sym2num.get(name, sym2num.get(name[:2].title(), sym2num.get(name[0], 0)))
+
+
+def h_pdb(ctx, natom=3, big=False, policy="touch", element_column=True):
     import iodata.api as api
     mods = rt._fmt_modules("pdb")
     ctx.scratch["width_policy"] = policy
@@ -140,8 +152,8 @@ def h_pdb(ctx, natom=3, big=False, policy="touch"):
             z = [7, 6, 8, 16][i % 4]
             if i in (0, natom - 1):
                 x, y, zz = (ctx.real(f"x{i}_{k}", lo=-900, hi=9000, default=1.5 * k - i) for k in range(3))
-                occ = ctx.real(f"occ{i}", lo=0, hi=99, default=1.0)
-                b = ctx.real(f"b{i}", lo=0, hi=99, default=20.0)
+                occ = ctx.real(f"occ{i}", lo=0, hi=999, default=1.0)       # the fields are 6.2: up to 999.99 is legal
+                b = ctx.real(f"b{i}", lo=-99, hi=999, default=20.0)
             else:
                 x, y, zz, occ, b = 0.1 * i, -0.2 * i, 0.3, 1.0, 0.0
             atoms.append((base + i, ["N", "CA", "O", "SG"][i % 4], "ALA", "A", 1 + i, x, y, zz, occ, b, z))
@@ -151,15 +163,15 @@ def h_pdb(ctx, natom=3, big=False, policy="touch"):
             s1 = ctx.int("c1", lo=base + 1, hi=base + natom - 1, default=base + natom - 1)
             ctx.assume(s0 < s1)
             conect.append((s0, [s1]))
-        text = L.write_pdb(dict(title="prot", atoms=atoms, conect=conect))
+        text = L.write_pdb(dict(title="prot", atoms=atoms, conect=conect, no_element=not element_column))
         path = ctx.tmp_path("m.pdb")
         ctx.write_text(path, text)
         d, err = _load(ctx, api, path)
-        cls = f"pdb,n={natom},big={big}"
+        cls = f"pdb,n={natom},big={big}" + ("" if element_column else ",no-element-column")
         ctx.oblige("well-formed-file-loads", err is None, cls=cls, detail=f"{err} / {getattr(err, '__cause__', None)!r}")
         if err is not None:
             return
-        _cmp(ctx, "atnums", d.atnums, np.array([a[10] for a in atoms]), cls)
+        _cmp(ctx, "atnums", d.atnums, np.array([a[10] if element_column else _pdb_guess(a[1]) for a in atoms]), cls)
         want = _arr(ctx, [[a[5] * L.ANGSTROM, a[6] * L.ANGSTROM, a[7] * L.ANGSTROM] for a in atoms])
         _cmp(ctx, "atcoords", d.atcoords, want, cls, tol=2e-3)
         _cmp(ctx, "occupancies", d.extra.get("occupancies"), _arr(ctx, [a[8] for a in atoms]), cls, tol=0.0051)
@@ -1051,6 +1063,8 @@ def jobs(tier):
     for natom, big in ((1, False), (3, False), (4, True)):
         out.append(job("C03", f"pdb[n={natom},big={int(big)}]", M, "h_pdb", dict(natom=natom, big=big), budget_s=300,
                        max_validate=4))
+    out.append(job("C03", "pdb[n=4,big=0,no-element-column]", M, "h_pdb", dict(natom=4, big=False, element_column=False),
+                   budget_s=300, max_validate=4))
     for vel in (True, False):
         for tric in (True, False):
             out.append(job("C03", f"gro[vel={int(vel)},tric={int(tric)}]", M, "h_gro",
